@@ -331,7 +331,7 @@ type Check struct {
 
 var (
 	property    string
-	tier        = "quick"
+	tier               = "quick"
 	seed        uint64 = 1
 	shard, nshd        = 0, 1
 	statsPath   string
